@@ -200,6 +200,16 @@ func (x *executor) runOps(task int, ops []Op) {
 					Detail: "observation differs from the fresh-process reference", Want: want, Got: out.obs})
 			}
 		}
+		// The text handed over in the caller's buffer is the caller's: the library
+		// keeps the slice, it must not write into it.
+		if b := x.w.Objects[op.Obj].Buf; b > 0 && b < len(callerBufs) && in.built && !x.relaxed[op.Obj] {
+			t := x.w.Objects[op.Obj].Text
+			if len(t) > 0 && len(t) <= len(callerBufs[b]) && string(callerBufs[b][:len(t)]) != t {
+				ts.viol = append(ts.viol, Violation{Class: "unstable-value", Kind: op.Kind, Obj: op.Obj, Task: task, OpIdx: i,
+					Detail: "the caller's input bytes were modified by the library", Want: sanit(t), Got: sanit(string(callerBufs[b][:len(t)]))})
+				copy(callerBufs[b][:len(t)], t) // report once
+			}
+		}
 		// O-live: no simulated lock may still be held when a call has returned
 		if h := simrt.HeldBy(task); h != 0 && !x.relaxed[op.Obj] {
 			ts.leaks++
